@@ -493,11 +493,16 @@ func runCancelCase(c cancelCase) []cxOpObs {
 				}
 			}
 			if op.instant != "after" {
-				// it has to come back by itself; a connection without deadlines needs the peer
+				// it has to come back by itself (within the 2 s margin); a connection without deadlines
+				// needs the peer, and is expected to
+				stuckAfter := 2 * time.Second
+				if !c.honours {
+					stuckAfter = 150 * time.Millisecond
+				}
 				select {
 				case r = <-done:
 					got = true
-				case <-time.After(150 * time.Millisecond):
+				case <-time.After(stuckAfter):
 					o.stuck = true
 					sendRest()
 				}
